@@ -22,6 +22,7 @@ void * g_spm_val;
 #include "datastruct/elasticarray.c"
 #include "datastruct/elasticqueue.c"
 #include "datastruct/seqptrmap.c"
+#include "c12_defs.h"
 #include "spm.h"
 
 void
@@ -36,6 +37,8 @@ h_spm_add(void)
 	VCOVER(rc != -1 && eq_len == 0);
 	VCOVER(rc == -1);
 	/* property-level restatement (replayable natively) */
+	__CPROVER_assert(rc != -1 || (M->len == eq_len && EQ->len == eq_len && EQ->offset == eq_off && M->offset == m_off),
+	    "a failed add leaves the map unmodified");
 	if (rc != -1) {
 		__CPROVER_assert(rc == m_off + (int64_t)eq_len, "numbers are issued consecutively");
 		__CPROVER_assert(seqptrmap_get(M, rc) == (void *)pv, "the number returned maps to the pointer added");
